@@ -32,6 +32,7 @@ class Obligation:
     def __init__(self, name, kind, pc, goal, fn, line, clause=""):
         self.name, self.kind, self.pc, self.goal, self.fn, self.line, self.clause = name, kind, list(pc), goal, fn, line, clause
         self.status, self.backend, self.time_s, self.model = None, None, 0.0, None
+        self.axioms = None        # optional: the only axioms this obligation needs (a small, stable query); None = all axioms of the engine
 
 
 class Heap(dict):
@@ -390,8 +391,14 @@ class Engine:
         self.axioms.append(P(t))
 
     # -------------------------------------------------------------- obligations
-    def oblige(self, st, name, goal, kind="safety", node=None, clause=""):
+    def oblige(self, st, name, goal, kind="safety", node=None, clause="", axioms=None):
         if st.silent:
+            return
+        if axioms is not None:
+            line = getattr(node, "lineno", 0) if node is not None else 0
+            ob = Obligation("%s/%s@%s#%d" % (self.cur_fn, name, line, len(self.obligations)), kind, st.cond(), goal, self.cur_fn, line, clause or name)
+            ob.axioms = list(axioms)
+            self.obligations.append(ob)
             return
         if z3.is_true(goal):
             goal = z3.BoolVal(True)
@@ -406,7 +413,9 @@ class Engine:
             return
         line = getattr(node, "lineno", 0) if node is not None else 0
         nm = "%s/%s@%s#%d" % (self.cur_fn, name, line, len(self.obligations))
-        self.obligations.append(Obligation(nm, kind, st.cond(), goal, self.cur_fn, line, clause or name))
+        ob_ = Obligation(nm, kind, st.cond(), goal, self.cur_fn, line, clause or name)
+        ob_.nax = len(self.axioms)          # axioms known when the obligation was generated (tried first: a smaller, more stable query)
+        self.obligations.append(ob_)
 
     def feasible(self, st, extra=None):
         self.feas.push()
@@ -1854,7 +1863,14 @@ class Engine:
         t0 = time.time()
         r = z3.unknown
         trivially_false = z3.is_false(z3.simplify(ob.goal))
-        for opts in self.solver_opts:
+        attempts = []
+        nax = getattr(ob, "nax", None)
+        if ob.axioms is None and nax is not None and nax < len(self.axioms):
+            # first with the axioms that existed when the obligation was generated (what later code added is irrelevant to it in
+            # almost every case), each option set with a short budget; then the full portfolio on all axioms
+            attempts += [(self.axioms[:nax], dict(o_, _timeout_ms=min(int(o_.get("_timeout_ms", self.timeout_ms)), 2500))) for o_ in self.solver_opts[:2]]
+        attempts += [((self.axioms if ob.axioms is None else ob.axioms), o_) for o_ in self.solver_opts]
+        for axs, opts in attempts:
             if trivially_false:
                 opts = dict(opts, _timeout_ms=500)       # nothing to prove unless the path is infeasible: a short budget is enough
             s = z3.Solver()
@@ -1862,7 +1878,7 @@ class Engine:
             for k_, v_ in opts.items():
                 if not k_.startswith("_"):
                     s.set(k_, v_)
-            for a in self.axioms:
+            for a in axs:
                 s.add(a)
             for a in self.label_axioms():
                 s.add(a)
@@ -1872,8 +1888,10 @@ class Engine:
                 s.add(c)
             s.add(z3.Not(ob.goal))
             r = s.check()
-            if r != z3.unknown:
+            if r == z3.unsat or (r == z3.sat and axs is not None and len(axs) == len(self.axioms if ob.axioms is None else ob.axioms)):
                 break
+            if r == z3.sat:
+                r = z3.unknown       # refuted only with a subset of the axioms: not conclusive
         ob.backend = "z3-%s" % z3.get_version_string()
         if r == z3.unsat:
             ob.status = "proved"
